@@ -155,6 +155,15 @@ def node_start_value(res: Result, fails: list):
         env = vnode.Env()
         env.now = now
         env.install()
+        import diameter.node._helpers as helpers_mod
+
+        class _R:
+            def randint(self, a, b):
+                return 7 if b == 0x000fffff else 0x9abcdef1     # a fully random seed would show in the high bits
+
+            def getrandbits(self, k):
+                return 5
+        helpers_mod.random = _R()
         try:
             n = Node("node.local", "realm.local", ip_addresses=["10.0.0.1"], tcp_port=3868)
             v = n.end_to_end_seq.sequence
